@@ -1,48 +1,8 @@
 (* C16: model of store/src/lib.rs (the single task serialising commands) and its refinement to a map. *)
 From Coq Require Import List NArith Lia Bool ZifyN ZifyBool.
+From HS Require Import StoreDefs.
 Import ListNotations.
 Open Scope N_scope.
-
-Definition key := N.     (* the harness interns byte strings; equality is all the store uses *)
-Definition value := N.
-
-Inductive cmd :=
-| Write (k : key) (v : value)
-| Read (k : key) (id : N)
-| NotifyRead (k : key) (id : N)
-| Reopen.                                  (* all handles dropped, database reopened *)
-
-Inductive sout := ORead (id : N) (v : option value) | ONotify (id : N) (v : value).
-
-Record St := mkSt { db : list (key * value); obl : list (key * N) (* pending waiters, FIFO *) }.
-
-Fixpoint get (k : key) (m : list (key * value)) : option value :=
-  match m with [] => None | (k', v) :: r => if k =? k' then Some v else get k r end.
-
-Definition sstep (s : St) (c : cmd) : St * list sout :=
-  match c with
-  | Write k v =>
-      let woken := filter (fun e => fst e =? k) (obl s) in
-      (mkSt ((k, v) :: db s) (filter (fun e => negb (fst e =? k)) (obl s)),
-       map (fun e => ONotify (snd e) v) woken)
-  | Read k id => (s, [ORead id (get k (db s))])
-  | NotifyRead k id =>
-      match get k (db s) with
-      | Some v => (s, [ONotify id v])
-      | None => (mkSt (db s) (obl s ++ [(k, id)]), [])
-      end
-  | Reopen => (mkSt (db s) [], [])
-  end.
-
-Fixpoint srun (s : St) (cs : list cmd) : St * list sout :=
-  match cs with
-  | [] => (s, [])
-  | c :: r => let '(s1, o1) := sstep s c in let '(s2, o2) := srun s1 r in (s2, o1 ++ o2)
-  end.
-
-(* ---- specification: a map, and the set of waiters that must still be served ---- *)
-Definition spec_map (cs : list cmd) (k : key) : option value :=
-  fold_left (fun acc c => match c with Write k' v => if k =? k' then Some v else acc | _ => acc end) cs None.
 
 Lemma spec_map_app cs c k :
   spec_map (cs ++ [c]) k = match c with Write k' v => if k =? k' then Some v else spec_map cs k | _ => spec_map cs k end.
